@@ -48,6 +48,14 @@ pub fn run(cfg: &RunCfg, agg: &Mutex<Agg>) {
             (32768, 32768, 1026),
             (57000, 8000, 1100),
             (8000, 57000, 1100),
+            // few originals, a lot of recovery data (and the reverse)
+            (3, 36, 640_000),
+            (36, 3, 640_000),
+            (5, 300, 100_002),
+            (100, 400, 64_000),
+            (400, 100, 64_000),
+            (3, 60_000, 320),
+            (60_000, 3, 320),
         ]);
         let size = size + 2 * rng.below(40);
         assert!(gen::envelope(k, r), "harness: huge shape outside the documented envelope");
